@@ -393,8 +393,16 @@ def run(job, streams=None):
                               "close_notify" % w)
                     elif failed or clean:
                         pass
+                    elif flags[1] and not [c for c in ep.sock.calllog
+                                           if c[0] == "recv" and c[2] in
+                                           ("reset", "epipe")]:
+                        clean = True      # ignoreAbruptClose: EOF only
                     elif flags[1]:
-                        clean = True      # ignoreAbruptClose
+                        v("reset_as_eof", "read",
+                          "%s read(min=%d) returned %d bytes without raising "
+                          "although its transport failed with a reset (only "
+                          "a missing close_notify may be ignored)" %
+                          (w, mn, len(data)))
                     else:
                         v("truncation_as_eof", "read",
                           "%s read(min=%d) returned %d bytes without "
